@@ -68,7 +68,7 @@ def md5 : MDSpec where
   iv := md5IV
   compress := fun h blk => md5Block h (wordsLE32 blk)
   encLen := fun bits => leBytesN 8 bits
-  out := fun h => h.toList.flatMap leBytes32
+  out := fun h => (h.toList.flatMap leBytes32).take 16
 
 def sha32 (iv : Array UInt32) (block : Array UInt32 → Array UInt32 → Array UInt32) (outLen : Nat) : MDSpec where
   σ := Array UInt32
@@ -93,5 +93,9 @@ def sha224 : MDSpec := sha32 sha224IV sha256Block 28
 def sha256 : MDSpec := sha32 sha256IV sha256Block 32
 def sha384 : MDSpec := sha64 sha384IV 48
 def sha512 : MDSpec := sha64 sha512IV 64
+
+/-- the standard each `PCryptoHashType` of this group names -/
+def ofType : HashType → MDSpec
+  | .md5 => md5 | .sha1 => sha1 | .sha224 => sha224 | .sha256 => sha256 | .sha384 => sha384 | .sha512 => sha512
 
 end PV.Hash.Spec
